@@ -40,6 +40,9 @@ def corpus():
             m = re.match(r"^c(\d\d)_", f)
             if f.endswith(".diff") and m:
                 out.append((kind + "/" + f, os.path.join(d, f), ["C" + m.group(1)], exp))
+            elif f.endswith(".diff") and f.startswith("all_"):
+                allp = [c["property_id"] for c in json.load(open(os.path.join(HERE, "MANIFEST.json")))["checks"]]
+                out.append((kind + "/" + f, os.path.join(d, f), allp, exp))
     d = os.path.join(HERE, "seeded")
     for s in sorted(os.listdir(d)) if os.path.isdir(d) else []:
         pf = os.path.join(d, s, "patch.diff")
@@ -61,11 +64,12 @@ def run_one(item, tier):
         r = subprocess.run(["git", "apply", patch], cwd=scratch, stderr=subprocess.PIPE, text=True)
         if r.returncode != 0:
             return name, exp, {p: "noapply" for p in props}, False
-        env = dict(os.environ, DSA_REPO=scratch, DSA_EVIDENCE_DIR=os.path.join(HERE, "out", "mut_evidence"))
+        env = dict(os.environ, DSA_REPO=scratch, DSA_EVIDENCE_DIR=os.path.join(scratch, "_evidence"), DSA_REPLAY_DIR=os.path.join(scratch, "_replay"))
         for p in props:
             o = subprocess.run([os.path.join(HERE, "check"), p, "--tier", tier], stdout=subprocess.PIPE, stderr=subprocess.STDOUT, text=True, cwd=HERE, env=env)
             inst = sorted(set(re.findall(r"rule (C\d\d\.[\w-]+)", o.stdout)))
-            res[p] = {"exit": o.returncode, "rules": inst}
+            keys = [json.loads(k) for k in re.findall(r"^  key (\[.*\])$", o.stdout, re.M)]
+            res[p] = {"exit": o.returncode, "rules": inst, "keys": keys}
     finally:
         shutil.rmtree(scratch, ignore_errors=True)
     want = 1 if exp == "fire" else 0
